@@ -973,22 +973,28 @@ func r6ProducerBody(c *RuleCtx, fn *ssa.Function, props []string, name string, a
 				if sameValue(ev, v) || sameValue(ev, resolveLoad(v)) {
 					return // this very error is what is returned
 				}
+				// folded into one error variable, or called on some paths only? the path analysis knows
+				// on which paths the call ran and whether its error was found nil since
+				if e := siteOfCall[site]; e != nil && !knowOverflow {
+					known := true
+					for _, st := range states {
+						if st&evAssumeNonNil == 0 && st&e.u != 0 {
+							known = false
+						}
+					}
+					if known {
+						return
+					}
+					if !site.Block().Dominates(ret.Block()) {
+						okc = false
+						why = append(why, "error of "+nm+" ("+c.pos(site)+") is not known to be nil on a path that ran it and reports success")
+						return
+					}
+				}
 				if !site.Block().Dominates(ret.Block()) {
 					return
 				}
 				if nilnessAt(ev, ret.Block()) != isNil {
-					// folded into one error variable? then the path analysis knows
-					if e := siteOfCall[site]; e != nil && !knowOverflow {
-						known := true
-						for _, st := range states {
-							if st&evAssumeNonNil == 0 && st&e.u != 0 {
-								known = false
-							}
-						}
-						if known {
-							return
-						}
-					}
 					okc = false
 					why = append(why, "error of "+nm+" ("+c.pos(site)+") is not known to be nil when success is reported")
 				}
@@ -1827,96 +1833,180 @@ func r6FaissProducers(c *RuleCtx) {
 		res := f.Signature.Results()
 		return res.Len() >= 1 && isFaissIndexPtr(res.At(0).Type()) && f.Signature.Recv() == nil
 	}
+	// functions of this package that hand a native index they produced to their caller by returning it
+	// (and in no other way): their call sites are producer sites too. Filled in by the first pass below.
+	zapProducers := map[*ssa.Function]bool{}
 	nsites := 0
-	for _, fn := range c.p.ZapFuncs {
-		for _, cs := range callSites(fn) {
-			call, ok := cs.(*ssa.Call)
-			if !ok || !isProducer(staticCallee(cs)) {
-				continue
-			}
-			nsites++
-			idx := extractOf(call, 0)
-			perr := extractOf(call, 1)
-			name := funcShortName(fn) + "/" + staticCallee(cs).Name()
-			if idx == nil {
-				c.badP(props, name+"/bound", c.pos(cs), "the produced native index is bound to a variable", "result discarded: the index can never be closed")
-				continue
-			}
-			const (
-				evProduced = 1 << 0
-				evReleased = 1 << 1
-			)
-			isIdx := func(v ssa.Value) bool { return v != nil && (root(v) == idx || sameValue(v, idx)) }
-			tr := func(in ssa.Instruction, ev uint64, deferred bool) []uint64 {
-				if in == ssa.Instruction(call) {
-					return []uint64{(ev | evProduced) &^ evReleased}
+	for pass := 0; pass < 3; pass++ {
+		emit := pass == 2
+		if emit {
+			nsites = 0
+		}
+		for _, fn := range c.p.ZapFuncs {
+			for _, cs := range callSites(fn) {
+				call, ok := cs.(*ssa.Call)
+				if !ok || !(isProducer(staticCallee(cs)) || zapProducers[staticCallee(cs)]) {
+					continue
 				}
-				switch x := in.(type) {
-				case *ssa.Store:
-					if isIdx(x.Val) {
-						if _, _, _, ok := fieldOf(x.Addr); ok {
-							return []uint64{ev | evReleased} // ownership moved into a structure
-						}
-						if g, ok := x.Addr.(*ssa.Global); ok && g != nil {
-							return []uint64{ev | evReleased}
-						}
+				nsites++
+				idx := extractOf(call, 0)
+				perr := extractOf(call, 1)
+				name := funcShortName(fn) + "/" + staticCallee(cs).Name()
+				if idx == nil {
+					if emit {
+						c.badP(props, name+"/bound", c.pos(cs), "the produced native index is bound to a variable", "result discarded: the index can never be closed")
 					}
-				case ssa.CallInstruction:
-					if _, isDefer := in.(*ssa.Defer); isDefer && !deferred {
-						return nil
-					}
-					f := staticCallee(x)
-					if iv, ok := faissCloseOf(x); ok && isIdx(iv) {
-						return []uint64{ev | evReleased}
-					}
-					if f != nil && c.p.InZap(f) {
-						for _, a := range x.Common().Args {
-							if isIdx(a) && isFaissIndexPtr(a.Type()) {
-								return []uint64{ev | evReleased} // handed to a zap routine (cache insert)
+					continue
+				}
+				const (
+					evProduced = 1 << 0
+					evReleased = 1 << 1
+				)
+				// the variable the index lives in, when it is captured by a closure
+				var idxCell *ssa.Alloc
+				if refs := idx.Referrers(); refs != nil {
+					for _, r := range *refs {
+						if st, ok := r.(*ssa.Store); ok && st.Val == idx {
+							if al, ok := st.Addr.(*ssa.Alloc); ok && len(cellStores(al)) == 1 {
+								idxCell = al
 							}
 						}
 					}
 				}
-				return nil
-			}
-			pa := newPathAnalysis(fn, tr)
-			pa.run(0)
-			labels := map[string]int{}
-			for _, ret := range returnsOf(fn) {
-				if !pa.reachable(ret.Block()) {
-					continue
-				}
-				lbl := exitLabel(ret, labels)
-				v, ns := errorOfReturn(ret)
-				if v != nil && perr != nil && sameValue(v, perr) && ns == nonNil {
-					continue
-				}
-				returned := false
-				for i := range ret.Results {
-					if isIdx(returnedValue(ret, i)) {
-						returned = true
+				isIdx := func(v ssa.Value) bool {
+					if v == nil {
+						return false
 					}
-				}
-				okc := true
-				produced := false
-				for _, ev := range pa.statesBefore(ret) {
-					if ev&evProduced != 0 {
-						produced = true
+					if root(v) == idx || sameValue(v, idx) {
+						return true
 					}
-					if ev&evProduced != 0 && ev&evReleased == 0 && !returned {
-						okc = false
+					if idxCell != nil {
+						if u, ok := v.(*ssa.UnOp); ok && u.Op == token.MUL && cellOf(u.X) == idxCell {
+							return true
+						}
 					}
+					return false
 				}
-				if !produced {
-					continue // exit not reachable after this producer
+				var pa *pathAnalysis
+				closureSummary := map[*ssa.Function]uint64{}
+				var tr transferFn
+				tr = func(in ssa.Instruction, ev uint64, deferred bool) []uint64 {
+					if in == ssa.Instruction(call) {
+						return []uint64{(ev | evProduced) &^ evReleased}
+					}
+					switch x := in.(type) {
+					case *ssa.Store:
+						if isIdx(x.Val) {
+							if _, _, _, ok := fieldOf(x.Addr); ok {
+								return []uint64{ev | evReleased} // ownership moved into a structure
+							}
+							if g, ok := x.Addr.(*ssa.Global); ok && g != nil {
+								return []uint64{ev | evReleased}
+							}
+						}
+					case ssa.CallInstruction:
+						if _, isDefer := in.(*ssa.Defer); isDefer && !deferred {
+							return nil
+						}
+						f := staticCallee(x)
+						if iv, ok := faissCloseOf(x); ok && isIdx(iv) {
+							return []uint64{ev | evReleased}
+						}
+						if cl := resolvedCallee(x); cl != nil && cl.Parent() != nil && rootParent(cl) == rootParent(fn) {
+							// a local closure; a deferred one guarded by the function's error variable
+							// (`defer func() { if err != nil { idx.Close() } }()`) acts according to that
+							// variable at this exit
+							if deferred && pa != nil && pa.cur != nil {
+								if cell, whenNonNil, whenNil, ok := errGuardedClosure(cl, tr); ok {
+									switch cellNilnessAt(cell, pa.cur) {
+									case nonNil:
+										return []uint64{ev | whenNonNil}
+									case isNil:
+										return []uint64{ev | whenNil}
+									}
+									return []uint64{ev | (whenNonNil & whenNil)}
+								}
+							}
+							sm, ok := closureSummary[cl]
+							if !ok {
+								closureSummary[cl] = 0
+								sm = mustEvents(cl, tr)
+								closureSummary[cl] = sm
+							}
+							if sm != 0 {
+								return []uint64{ev | sm}
+							}
+							return nil
+						}
+						if f != nil && c.p.InZap(f) {
+							for _, a := range x.Common().Args {
+								if isIdx(a) && isFaissIndexPtr(a.Type()) {
+									return []uint64{ev | evReleased} // handed to a zap routine (cache insert)
+								}
+							}
+						}
+					}
+					return nil
 				}
-				c.add(statusOf(okc), name+"/"+lbl+"/released", c.pos(ret),
-					"a native index produced in "+funcShortName(fn)+" is closed (directly or deferred), stored into its owner, handed to the cache or returned before this exit",
-					"a path leaves with the native index neither closed nor handed over", props, exitWitness(c, ret, v))
+				pa = newPathAnalysis(fn, tr)
+				pa.run(0)
+				labels := map[string]int{}
+				for _, ret := range returnsOf(fn) {
+					if !pa.reachable(ret.Block()) {
+						continue
+					}
+					lbl := exitLabel(ret, labels)
+					v, ns := errorOfReturn(ret)
+					if v != nil && perr != nil && (sameValue(v, perr) || sameValue(resolveLoad(v), perr)) && ns == nonNil {
+						continue
+					}
+					returned := false
+					for i := range ret.Results {
+						if isIdx(returnedValue(ret, i)) {
+							returned = true
+						}
+					}
+					okc := true
+					produced := false
+					for _, ev := range pa.statesBefore(ret) {
+						if ev&evProduced != 0 {
+							produced = true
+						}
+						if ev&evProduced != 0 && ev&evReleased == 0 && !returned {
+							okc = false
+						}
+					}
+					if !produced {
+						continue // exit not reachable after this producer
+					}
+					if returned && ns != nonNil && isFaissIndexPtrResult(fn) {
+						// hands the index to its caller: the caller's duty from here on
+						handsOver := true
+						for _, ev := range pa.statesBefore(ret) {
+							if ev&evReleased != 0 {
+								handsOver = false
+							}
+						}
+						if handsOver {
+							zapProducers[fn] = true
+						}
+					}
+					if !emit {
+						continue
+					}
+					c.add(statusOf(okc), name+"/"+lbl+"/released", c.pos(ret),
+						"a native index produced in "+funcShortName(fn)+" is closed (directly or deferred), stored into its owner, handed to the cache or returned before this exit",
+						"a path leaves with the native index neither closed nor handed over", props, exitWitness(c, ret, v))
+				}
 			}
 		}
 	}
 	c.add(statusOf(nsites >= half(3)), "producer-sites", "-", "native index producer call sites are found (confirmed by hand: 3)", fmt.Sprintf("found %d", nsites), props, nil)
+}
+
+func isFaissIndexPtrResult(fn *ssa.Function) bool {
+	res := fn.Signature.Results()
+	return res.Len() >= 1 && isFaissIndexPtr(res.At(0).Type())
 }
 
 // exitLabel names an exit by where its error comes from ("exit[err=Flush]",
